@@ -272,9 +272,18 @@ def wfFinish (blk : Pol) (fixWf : Bool) (content : Bytes) (bd : Digest) (res : P
                      | none => content),
                    headLen := 0, blockDigest := bd, payloadDigest := none }
 
+/-- under the ignore syntax policy the inner parse reports nothing, so WithFixWarcFieldsBlockErrors finds out whether the
+    block needs the rewrite with a second parse that reports (warn); the rewritten block is the serialisation of the
+    fields of the FIRST parse -/
+def wfDetectFix (content : Bytes) (b : Block) : Block :=
+  match parseFields .warn ⟨content, false⟩, parseFields .ignore ⟨content, false⟩ with
+  | .ok _ f _, .ok fs _ _ => if !f.isEmpty then { b with raw := fs.write } else b
+  | _, _ => b
+
 def newWarcFieldsBlock (o : Opts) (content : Bytes) (fault : Bool) (bd : Digest) : M Block := do
   condSite fault o.syn .reader
-  wfFinish o.blk o.fixWarcFieldsBlockErrors content bd (parseFields o.syn ⟨content, false⟩)
+  let b ← wfFinish o.blk o.fixWarcFieldsBlockErrors content bd (parseFields o.syn ⟨content, false⟩)
+  pure (if o.fixWarcFieldsBlockErrors && o.syn == .ignore then wfDetectFix content b else b)
 
 /-- record.go parseBlock -/
 def parseBlock (o : Opts) (Ω : Oracles) (rt : Nat) (content : Bytes) (fault : Bool) : M Block := do
